@@ -423,6 +423,7 @@ func (c *conn) runStatement(ctx context.Context, st any, q string) (*relation, e
 			db.abortSub(sub)
 			if retry.waitFor > 0 && db.wouldDeadlock(top.id, retry.waitFor) {
 				err = &PgError{Code: "40P01", Message: "deadlock detected"}
+				db.deadlocks++
 			} else {
 				db.waits[top.id] = retry.waitFor
 				if db.Hooks.Blocked != nil {
